@@ -18,7 +18,7 @@ for p in props:
             "replay_cmd_template": f"python3 check.py {pid} --replay {{path}}",
             "engine": "lean4-proof+correspondence",
             "level_claimed": {"category": "proof", "text": getattr(m, "LEVEL_TEXT", (m.__doc__ or "").strip()),
-                              "design_ref": "DESIGN.md section 6 " + pid},
+                              "design_ref": "DESIGN.md section 11 (result per property) and section 6 " + pid + " (plan)"},
             "level_note": getattr(m, "LEVEL_NOTE", "Lean 4 kernel; axioms propext/Classical.choice/Quot.sound (+ listed bv_decide axioms of Lemmas/Bits.lean); model tied to /repo by regeneration of Gen/ (gen/translate.py) and by the differential correspondence check; see evidence trusted_base"),
             "technique": getattr(m, "TECHNIQUE", "Lean 4 theorems over an executable model (Gen/ regenerated from source) + differential correspondence harness"),
         })
@@ -34,7 +34,7 @@ man = {
                  "kind_free_text": "Lean 4 proofs about an executable model; Gen/ regenerated from /repo by gen/translate.py; C++ harness vs Lean driver differential check; Python property oracle for failing-input search"}],
     "checks": checks,
     "not_applicable": na,
-    "notes": "See DESIGN.md. fix: commits in /repo are listed in known_findings.json (fixed).",
+    "notes": "See DESIGN.md (section 11: result per property), STATUS.md (generated: theorems, last run, findings, seeded changes per property) and README.md. known_findings.json: `open` entries are printed as KNOWN-FINDING lines (exit 0), `fixed` entries name the fix: commits in /repo and suppress nothing. seeded/ and refactors/ hold positive and negative controls (tools/run_seeded.py).",
 }
 json.dump(man, open(os.path.join(V, "MANIFEST.json"), "w"), indent=1)
 print(len(checks), "claimed;", len(na), "unclaimed")
